@@ -308,6 +308,13 @@ Definition spec_select (n : nat) (U : list term) (S : list str) (ds order : list
   | QRows oc orows => spec_rows n (map (utriple U) ds) q oc (map (map (decode_cell S)) orows)
   end.
 
+(** the same question for the code before c4f453a *)
+Definition select_agrees_pre (n : nat) (ds : list triple) (q : query) : bool :=
+  match run_select_pre (store_of ds) q with
+  | Done (cols, rows) => spec_rows n ds q (map Z.of_nat cols) rows
+  | _ => false
+  end.
+
 (** does the engine model itself return what the algebra defines on this data set and query? *)
 Definition select_agrees (n : nat) (ds : list triple) (q : query) : bool :=
   match run_select (store_of ds) q with
@@ -490,16 +497,17 @@ Definition k_refilter (q : query) : bool := k_refilter_pat (q_pat q).
 Definition k_update (ts : list triple) : bool :=
   existsb (fun t => has_blank t || negb (triple_eqb (conv_triple t) t)) ts.
 
-(** the first class (1..8) that applies to a failing SELECT, 0 when none does *)
+(** the first open class that applies to a failing SELECT, 0 when none does.  Classes 1
+    (DISTINCT dropped, repaired by c4f453a), 7 (validity bitmap, repaired by dfd360c) and 9
+    (re-filter, repaired by df57ccb) are no longer part of the chain; their predicates stay as the
+    description of the inputs that showed them. *)
 Definition k_class_g (n : nat) (g : list triple) (q : query) : Z :=
   if k_repvar q then 2
   else if k_union q then 6
   else if k_const q then 4
   else if k_render g q then 3
   else if k_filter n g q then 5
-  else if k_null n g q then 7
   else if k_order n g q then 8
-  else if k_distinct n g q then 1
   else 0.
 Definition k_class (n : nat) (U : list term) (S : list str) (ds order : list itriple) (q : query) (o : qobs) : Z :=
   k_class_g n (map (utriple U) ds) q.
